@@ -450,9 +450,11 @@ class ErrorStack(deque):
             result = "\n".join(lines)
 
         # last formula
-        src = "\nFormula source:\n"
-        src += self[-1][0][OBJ].formula.source
-        result += "\n" + src
+        source = self[-1][0][OBJ].formula.source
+        if source is not None:      # not available for exec-made functions
+            src = "\nFormula source:\n"
+            src += source
+            result += "\n" + src
 
         return result
 
